@@ -79,8 +79,17 @@ def render_helpers(spec):
     return "\n".join(out) + "\n"
 
 
+def _default_lit(ty, d):
+    if ty[0] == "bit":
+        return "True" if d else "False"
+    if ty[0] == "bv":
+        return f'"{d:0{ty[1]}b}"'
+    return str(d - (1 << ty[1]) if ty[0] == "s" and d >> (ty[1] - 1) else d)
+
+
 def _port_decl(p):
-    return f"    {p['name']} = Port.{'input' if p['dir'] == 'in' else 'output'}({ty_src(p['ty'])})"
+    dflt = f", default={_default_lit(p['ty'], p['default'])}" if p.get("default") is not None else ""
+    return f"    {p['name']} = Port.{'input' if p['dir'] == 'in' else 'output'}({ty_src(p['ty'])}{dflt})"
 
 
 def act_src(act, roots):
@@ -231,17 +240,18 @@ def render_flat(spec):
                         aw = 1
                     if act.get("psl") is not None:
                         aw = 1 if len(act["psl"]) == 1 else act["psl"][0] - act["psl"][1] + 1
-                    if aw == width(p["ty"]):
+                    if aw == width(p["ty"]) and p.get("default") is None:
                         cbind[f] = src
                         continue
-                    # width mismatch: the connection is the assignment in data-flow direction
+                    # width mismatch: the connection is the assignment in data-flow direction; a port with a default
+                    # is an object of its own that starts with the default and is wired to the actual
                     v = f"{pfx}m{k}_{f}"
-                    decls.append(f"        {v} = Signal[{ty_src(p['ty'])}](name=\"{v}\")")
+                    decls.append(sig_decl(v, p, v))
                     cbind[f] = v
                     glue.append(f"_asg({v}, {src})" if p["dir"] == "in" else f"_asg({src}, {v})")
                 else:
                     v = f"{pfx}e{k}_{f}"
-                    decls.append(f"        {v} = Signal[{ty_src(p['ty'])}](name=\"{v}\")")
+                    decls.append(sig_decl(v, p, v))
                     cbind[f] = v
                     if f in inst["pre"]:
                         glue.append(f"_asg({v}, {act_src(inst['pre'][f], roots)})")
